@@ -597,12 +597,13 @@ class ApplicationJobs:
                 # NOTE: this is done BEFORE the forced state is sent because the event will come back immediately
                 #       in the on_event method below
                 self.current_jobs.remove(command)
+                # NOTE: the command is not in the current jobs anymore when the forced event comes back,
+                #       so the failure has to be considered here, and BEFORE the forced state is sent because
+                #       the job may be completed (and its ending actions taken) when the event comes back
+                self.process_failure(command.process)
                 # generate a process event for this process to inform all Supvisors instances
                 reason = f'process {getProcessStateDescription(expected_state)} event not received in time'
                 self.fail_command(command.process, command.identifier, event_time, reason)
-                # NOTE: the command is not in the current jobs anymore when the forced event comes back,
-                #       so the failure has to be considered here
-                self.process_failure(command.process)
             if result == ProcessRequestResult.SUCCESS:
                 # NOTE: the result has been reached outside the scope of the sequencer
                 #       the job MUST be removed of the sequencer will block
